@@ -175,7 +175,87 @@ pub fn check_ops(ops: &[Op]) -> CaseResult {
     Ok(())
 }
 
+/// Stdfs (trait impl on the unit struct) vs Vfs::Stdfs on twin sandbox directories
+pub fn check_stdfs_twin(op_t: &Op) -> CaseResult {
+    use std::sync::atomic::{AtomicU64, Ordering};
+    static SEQ: AtomicU64 = AtomicU64::new(0);
+    let base = crate::sandbox::root();
+    let run = |wrapped: bool| -> (Out, Vec<(String, String)>, Option<String>) {
+        let root = format!("{}/tw{}", base.to_str().unwrap(), SEQ.fetch_add(1, Ordering::Relaxed));
+        let _ = std::fs::create_dir_all(&root);
+        let sub = |o: &Op| -> Op { serde_json::from_str(&serde_json::to_string(o).unwrap().replace('@', &root)).unwrap() };
+        let direct = Stdfs::new();
+        let vfs = Vfs::stdfs();
+        for o in scenario_at("@") {
+            let o = sub(&o);
+            if matches!(o, Op::SetCwd(_) | Op::Chown(..)) {
+                continue;
+            }
+            let _ = if wrapped { apply(&vfs, &o) } else { apply(&direct, &o) };
+        }
+        let op = sub(op_t);
+        let out = if wrapped { apply(&vfs, &op) } else { apply(&direct, &op) };
+        // entry accessors through the wrapper
+        let mut acc = None;
+        if wrapped {
+            if let Op::Entry(p) = &op {
+                if let Ok(e) = vfs.entry(p) {
+                    acc = entry_wrapper_diff(&e);
+                }
+            }
+        }
+        let t = crate::props::c20::tree_from_disk(&root);
+        let _ = std::fs::remove_dir_all(&root);
+        let st = |s: String| s.replace(&root, "@");
+        let out = match out {
+            Out::Path(p) => Out::Path(st(p)),
+            Out::Paths(v) => Out::Paths(v.into_iter().map(st).collect()),
+            Out::Seq(v) => {
+                let mut v: Vec<String> = v.into_iter().map(st).collect();
+                v.sort();
+                Out::Seq(v)
+            },
+            Out::Entry(mut e) => {
+                e.path = st(e.path);
+                e.alt = st(e.alt);
+                if e.path == "@" {
+                    e.file_name = None; // the twin directories are named differently
+                }
+                Out::Entry(e)
+            },
+            Out::Err(_) => Out::Err(String::new()),
+            x => x,
+        };
+        let tree: Vec<(String, String)> = t.nodes.iter().map(|(k, n)| (k.clone(), match n {
+            Node::Dir { mode, .. } => format!("dir {:o}", mode),
+            Node::File { data, mode, .. } => format!("file {:o} {:?}", mode, data),
+            Node::Link { target, .. } => format!("link {}", target),
+        })).collect();
+        (out, tree, acc)
+    };
+    let (a, ta, _) = run(false);
+    let (b, tb, acc) = run(true);
+    if let Some(d) = acc {
+        return Err(Failure::new("entry|accessor-differs-through-VfsEntry|stdfs", d));
+    }
+    if a != b {
+        return Err(Failure::new(format!("{}|result-differs-through-wrapper|stdfs", op_t.name()), format!("{:?}: Stdfs {:?} Vfs::Stdfs {:?}", op_t, a, b)));
+    }
+    if ta != tb {
+        return Err(Failure::new(format!("{}|effect-differs-through-wrapper|stdfs", op_t.name()), format!("{:?}: trees differ {:?} vs {:?}", op_t, ta, tb)));
+    }
+    Ok(())
+}
+
 fn scenario() -> Vec<Op> {
+    scenario_at("")
+}
+
+fn scenario_at(root: &str) -> Vec<Op> {
+    scenario_inner().into_iter().map(|o| serde_json::from_str(&serde_json::to_string(&o).unwrap().replace("\"/", &format!("\"{}/", root))).unwrap()).collect()
+}
+
+fn scenario_inner() -> Vec<Op> {
     vec![
         Op::MkdirM("/d/sub".into(), 0o750),
         Op::WriteAll("/d/f".into(), b"x\ny".to_vec()),
@@ -191,8 +271,8 @@ fn scenario() -> Vec<Op> {
 }
 
 pub fn run(c: &Ctx) {
-    c.set_rule("(a) matrix: from a fixed mixed scenario (dirs, files with different modes/owners/bytes, link to file, link to dir, dangling link, cwd below root) every call form of the finite alphabet (every trait method incl. builder variants and handles) on every path of the scenario (absolute and cwd-relative; ordered pairs for copy/move/symlink) is executed on a plain Memfs, through Vfs::Memfs(..) and through Memfs::upcast(): identical result (value / error kind) and identical dump-derived tree after every call; every Entry accessor (path, alt, rel, *_buf, file_name, follow(true/false/twice), following, is_*, mode, upcast, clone) of the inner MemfsEntry vs the VfsEntry. (b) the C01 random histories executed the same three ways. Non-trivial = call whose result is not an error and not 'false' on at least one path (a mis-routed arm would differ); distinct by (scenario prefix, call).");
-    c.assume("Stdfs vs Vfs::Stdfs is exercised by the C02 harness (same apply() entry point through the Vfs enum)");
+    c.set_rule("(a) matrix: from a fixed mixed scenario (dirs, files with different modes/owners/bytes, link to file, link to dir, dangling link, cwd below root) every call form of the finite alphabet (every trait method incl. builder variants and handles) on every path of the scenario (absolute and cwd-relative; ordered pairs for copy/move/symlink) is executed on a plain Memfs, through Vfs::Memfs(..) and through Memfs::upcast(): identical result (value / error kind) and identical dump-derived tree after every call; every Entry accessor (path, alt, rel, *_buf, file_name, follow(true/false/twice), following, is_*, mode, upcast, clone) of the inner MemfsEntry vs the VfsEntry. (b) the same matrix on the real-filesystem backend: the Stdfs unit struct (trait impl) vs Vfs::Stdfs on twin tmpfs directories, results and std::fs-observed trees equal. (c) the C01 random histories executed the three Memfs ways. Non-trivial = call whose result is not an error and not 'false' on at least one path (a mis-routed arm would differ); distinct by (scenario prefix, call).");
+    c.assume("Stdfs twin runs use absolute paths inside a sandbox (set_cwd excluded: process-global)");
     let base = scenario();
     let paths = ["/", "/d", "/d/f", "/d/sub", "/d/sub/g", "/exe", "/lf", "/ld", "/dang", "/nope", "f", "sub/g", "..", "../lf", "/d/new", "/new/deep"];
     let mut cases: Vec<Vec<Op>> = vec![];
@@ -230,6 +310,27 @@ pub fn run(c: &Ctx) {
         c.judge("ops", ops, r);
     });
     c.note("matrix_cases", cases.len());
+    // the same matrix for the real-filesystem backend: Stdfs vs Vfs::Stdfs on twin sandbox directories
+    let spaths = ["@", "@/d", "@/d/f", "@/d/sub", "@/d/sub/g", "@/exe", "@/lf", "@/ld", "@/nope", "@/d/new", "@/new/deep"];
+    let mut twin: Vec<Op> = vec![];
+    for p in spaths {
+        twin.extend(single_path_ops(p, true).into_iter().filter(|o| !matches!(o, Op::SetCwd(_))));
+    }
+    for a in spaths.iter().take(8) {
+        for b in spaths.iter().take(8) {
+            twin.extend(two_path_ops(a, b, false));
+        }
+    }
+    par_for(twin.len() as u64, 8, |i| {
+        let op = &twin[i as usize];
+        mark("stdfs-twin", &serde_json::to_string(op).unwrap());
+        c.eval(1);
+        c.nontrivial(fp(&("twin", i)));
+        c.class("stdfs-twin");
+        record(op, &Out::Unit);
+        c.judge("stdfs-twin", op, check_stdfs_twin(op));
+    });
+    crate::sandbox::cleanup();
     // (b) random histories
     let cfg = GenCfg { names: NAMES3, avoid_through_link: false, plain_spelling: false, wild: true, handles: false };
     let n = c.tier.pick(3_000, 60_000);
@@ -264,6 +365,12 @@ pub fn replay(kind: &str, case: &Value) -> Option<CaseResult> {
         "ops" => {
             let ops: Vec<Op> = serde_json::from_value(case.clone()).ok()?;
             Some(check_ops(&ops))
+        },
+        "stdfs-twin" => {
+            let op: Op = serde_json::from_value(case.clone()).ok()?;
+            let r = check_stdfs_twin(&op);
+            crate::sandbox::cleanup();
+            Some(r)
         },
         _ => None,
     }
